@@ -435,6 +435,7 @@ func runC04(e *Engine, r *Report) {
 	ruleTanIndexState(e, r)
 	ruleDurableMkdir(e, r)
 	ruleTanManifestSync(e, r)
+	ruleTanNewLogOrder(e, r)
 }
 
 // runPebbleSync: every pebble write in the kv wrapper takes the options value
